@@ -163,6 +163,15 @@ func cutoff(t *rapid.T, n int) float64 {
 	if rapid.Bool().Draw(t, "dyadic") {
 		return rapid.SampledFrom([]float64{0.5, 0.625, 0.75, 0.875, 1}).Draw(t, "cut")
 	}
+	if rapid.IntRange(0, 2).Draw(t, "near") == 0 {
+		// just below or just above an attainable frequency k/n (by 1e-8, 1e-7 or 1e-5: far more than the
+		// rounding error of cutoff*n, far less than any tolerance one might be tempted to add)
+		k := rapid.IntRange((n+1)/2, n).Draw(t, "neark")
+		d := rapid.SampledFrom([]float64{1e-8, -1e-8, 1e-7, -1e-7, 1e-5, -1e-5}).Draw(t, "neard")
+		if c := float64(k)/float64(n) + d; c >= 0.5 && c <= 1 {
+			return c
+		}
+	}
 	for {
 		c := rapid.Float64Range(0.5, 1).Draw(t, "cutf")
 		ok := true
